@@ -893,6 +893,11 @@ func (vc *VC) runDefers(st *State) {
 }
 
 func (vc *VC) declareUF(uf *UF) {
+	for _, a := range append([]string{uf.Ret}, uf.Args...) {
+		if a == "Str" {
+			vc.ensureStr()
+		}
+	}
 	vc.declareFun(uf.Name, uf.Args, uf.Ret)
 }
 
